@@ -440,6 +440,21 @@ def _raises_itself(model, ev):
     return any(isinstance(x, ast.Raise) for x in ast.walk(h.node))
 
 
+def _skipped_only_when_no_kwargs(ck, ev_node, target_id):
+    """Every path to ``target_id`` that does not pass ``ev_node`` takes an edge on which the wrapper's ``**kwargs`` is
+    known to be empty: a validation of the keyword names that is skipped for a call without keywords skips nothing."""
+    if ck.wr.kwarg is None:
+        return False
+    atoms = [a for (nid, k), (kn, _at) in ck.gg.edge_facts.items() for a, pol in kn if strip_sites(a) == ("param", ck.wr.kwarg)]
+    drop = set()
+    for a in atoms:
+        drop |= set(ck.gg.edges_where((a, False)))
+    if not drop:
+        return False
+    seen = ck.gg.reach([ck.cfg.entry], lambda n, k, t: t.id == ev_node.id or (n.id, k) in drop, None, False)
+    return target_id not in seen
+
+
 def c19_reserved_call(run, model, rule="C19.reserved-call"):
     for role, ck in checkers(model).items():
         run.saw(ck.flow)
@@ -453,7 +468,8 @@ def c19_reserved_call(run, model, rule="C19.reserved-call"):
             for e in evs:
                 if e is not ev and e["kind"] not in ("TEST",):
                     others.add(e["node"].id)
-        before = [i for i in others if i not in ck.gg.reach(normal_succ(ev["node"])) or ev["node"].id not in ck.dom[i]]
+        after_ev = ck.gg.reach(normal_succ(ev["node"]))
+        before = [i for i in others if i not in after_ev or (ev["node"].id not in ck.dom[i] and not _skipped_only_when_no_kwargs(ck, ev["node"], i))]
         before = [i for i in before if i != ev["node"].id]
         if before:
             n = [x for x in ck.cfg.nodes if x.id == before[0]][0]
@@ -514,7 +530,7 @@ def c16_phases(run, model, rule="C16.phases"):
                 bad = (n1, n2, b)
                 break
             # unconditional phases must dominate the following ones
-            if n1 not in ("SNAP",) and a.id not in ck.dom[b.id]:
+            if n1 not in ("SNAP",) and a.id not in ck.dom[b.id] and not (n1 == "kwargs-validation" and _skipped_only_when_no_kwargs(ck, a, b.id)):
                 bad = (n1, n2, b)
                 break
         if bad:
